@@ -183,6 +183,11 @@ def state_writes(prog: Program, f: FuncInfo) -> list[tuple[str, str]]:
                 out.append(("module-container", e[1][1]))
             elif e[0] == "setitem" and e[1] == C.SELF:
                 out.append(("self-item", "self[...]"))
+            elif e[0] in ("setitem", "setattr") and e[1][0] == "attr" and e[1][1] == C.SELF:
+                out.append(("self-container", e[1][2]))
+            elif e[0] == "delete" and T.contains(e[1], lambda s: s[0] == "attr" and s[1] == C.SELF):
+                a = [s for s in T.walk(e[1]) if s[0] == "attr" and s[1] == C.SELF]
+                out.append(("self-container", a[0][2]))
             elif e[0] == "assign" and e[1] in scoped:
                 out.append(("global", e[1]))
         for c in p.calls():
